@@ -78,7 +78,7 @@ func ruleLogAppendOnly(r *Run) {
 				"a mutation-log file is opened for writing without O_APPEND: the next record is written at offset 0 over the earlier records, which a restart then cannot replay", w.pos(c.Pos()))
 		}
 	}
-	r.check(n >= 3, "storage/filelog:write-opens", fmt.Sprintf("%d write opens", n), "write opens of log files not found", "-")
+	r.check(n >= 1, "storage/filelog:write-opens", fmt.Sprintf("%d write opens", n), "write opens of log files not found", "-")
 }
 
 // ---------------------------------------------------------------------------------------------
